@@ -57,7 +57,7 @@ extern "C" void h_after_others(void) {
 // explicit member additions: the first members of a growing container are re-observed after every later addition
 extern "C" void h_member_growth(void) {
    zoo::World* w = new zoo::World; auto& lx = w->lx;
-   unsigned kind = vp_pick(10);
+   unsigned kind = vp_pick(12);
    const ipr::Name* nm[10]; char8_t buf[2] = { u8'a', 0 };
    for (int i = 0; i < 10; ++i) { buf[0] = char8_t(u8'a' + i); nm[i] = &lx.get_identifier(util::word_view(buf, 1)); }
    impl::Enum* e = lx.make_enum(*w->reg, ipr::Enum::Kind::Scoped); impl::Mapping* m = lx.make_mapping(*w->reg, Mapping_level{ 1 }); impl::Class* c = lx.make_class(*w->reg);
@@ -74,11 +74,20 @@ extern "C" void h_member_growth(void) {
       case 6: { const ipr::Var& x = *ns->declare_var(*nm[i % 4], *w->T[i % 3]); addr[i] = &x; if (i < 2) t.node<ipr::Var>(x); if (i == 0) { t.node<ipr::Namespace>(*ns); t.node<ipr::Scope>(ns->body.scope); } break; }   // decl_sequence, overload tree, redeclarations
       case 7: { const ipr::Expr& x = *lx.make_id_expr(*nm[i]); xl->push_back(&x); addr[i] = &x; if (i < 2) t.node<ipr::Expr>(x); if (i == 0) t.node<ipr::Expr_list>(*xl); break; }
       case 8: { buf[0] = char8_t(u8'A' + i); const ipr::String& x = lx.get_string(util::word_view(buf, 1)); addr[i] = &x; if (i < 2) t.node<ipr::String>(x); break; }                       // string pool
+      case 10: { static cxx_form::impl::Designated_list_provision* dl = nullptr; if (i == 0) dl = w->reg->make_designated_provision();        // designated-initializer list (elements are plain records, not nodes)
+                 auto& fd = *w->reg->make_field_designator(*static_cast<const ipr::Identifier*>(nm[i])); auto& pv = *w->reg->make_parenthesized_provision(*w->E[i % 3]);
+                 auto* el = dl->seq.push_back(fd, pv); addr[i] = el; const ipr::cxx_form::Designated_list_provision& cd = *dl;
+                 for (int q = 0; q <= i; ++q) vp_assert(&*cd.elements().position(q) == addr[q] && &cd.elements().position(q)->subobject() != nullptr, 12);      // every earlier element is where it was
+                 break; }
+      case 11: { static impl::Block* blk = nullptr; if (i == 0) blk = lx.make_block(*w->reg);                                               // statements of a block body
+                 const ipr::Expr& st = *lx.make_expr_stmt(*w->E[i % 3]); blk->add_stmt(st); addr[i] = &st; const ipr::Block& cb = *blk;
+                 for (int q = 0; q <= i; ++q) vp_assert(&*cb.body().position(q) == addr[q], 13);
+                 break; }
       case 9: { impl::Warehouse<ipr::Type>* wh = new impl::Warehouse<ipr::Type>; for (int k = 0; k <= i % 3; ++k) wh->push_back(*w->T[(i + k) % 3]); wh->push_back(lx.get_pointer(*w->T[i % 3]));
                 const ipr::Product& x = lx.get_product(*wh); delete wh; addr[i] = &x; if (i < 2) t.node<ipr::Product>(x); break; }                                                       // contents copied before the warehouse dies
       }
       if (i == 1) t.snapshot();
-      if (i >= 1) t.recheck(10);
+      if (i >= 1 && kind < 10) t.recheck(10);
       if (kind != 9 && kind != 6) for (int q = 0; q < i; ++q) vp_assert(addr[q] != addr[i], 11);
    }
    vp_done();
